@@ -17,7 +17,7 @@ def run(ctx, prop):
     ctx.add("transitions", r["generated"])
     variations = "2" if ctx.tier == "quick" else "12"
     s = vlib.harness(ctx, "runtime_replay", [r["out"]], env={"VERIF_VARIATIONS": variations})
-    if s["extra"]["paths"] < 1000 or s["extra"]["contexts_compared"] < 1000:
+    if s["extra"]["paths"] < 1000 or (not s["mismatches"] and s["extra"]["contexts_compared"] < 1000):
         raise vlib.ToolError(f"vacuity guard: too few paths / contexts: {s['extra']}")
     mine = [m for m in s["mismatches"] if m["signature"].startswith(prop + ":")]
     other = len(s["mismatches"]) - len(mine)
